@@ -3,6 +3,11 @@ import checks_stream
 
 CHECKS = {
     "C01": checks_stream.c01,
+    "C02": checks_stream.c02,
+    "C03": checks_stream.c03,
+    "C04": checks_stream.c04,
+    "C10": checks_stream.c10,
+    "C11": checks_stream.c11,
 }
 
 
